@@ -6,19 +6,14 @@ import Tpp.Model.Parser
 The four function-local tables are transcribed row by row in the order of the source, their entries
 referring to the regenerated constants; they are tied completely by the exhaustive key-space sweep.
 
-`atoi` is glibc's, on a digit-only string (the parser only ever stores digits in an argument):
-`(int) strtol(s, 0, 10)` – the value saturates at `LONG_MAX = 2^63-1`, the conversion to `int` keeps the low
-32 bits as a two's-complement number.  The empty string gives 0.
+`argument_to_integer` (the helper that replaced `atoi`, fix F8) on a digit-only string (the parser only ever
+stores digits in an argument): `strtoll(s, 0, 10)` saturates at `LLONG_MAX = 2^63-1`, the result is then clamped
+to the range of `int`, so the value is `min n (2^31-1)`.  The empty string gives 0.
 -/
 namespace Tpp
 
-/-- low 32 bits as a signed number -/
-def trunc32 (n : Nat) : Int :=
-  if n % 4294967296 < 2147483648 then ((n % 4294967296 : Nat) : Int)
-  else ((n % 4294967296 : Nat) : Int) - 4294967296
-
-/-- glibc `atoi` on a digit-only byte string -/
-def atoiGlibc (ds : List Byte) : Int := trunc32 (min (parseDec ds 0) 9223372036854775807)
+/-- `argument_to_integer` on a digit-only byte string: `strtoll`, clamped to `int` -/
+def argToInt (ds : List Byte) : Int := ((min (min (parseDec ds 0) 9223372036854775807) 2147483647 : Nat) : Int)
 
 /-- `std::ranges::find(table, value, &pair::first)` where `value` is an `int` and the keys are bytes -/
 def lookupInt {α} (v : Int) : List (Nat × α) → Option α
@@ -50,7 +45,7 @@ def modifierTable : List (Nat × Nat) :=
 
 /-- `convert_modifier_argument` -/
 def convertModifier (arg : List Byte) : Nat :=
-  (lookupInt (atoiGlibc arg) modifierTable).getD Consts.vkmod_none
+  (lookupInt (argToInt arg) modifierTable).getD Consts.vkmod_none
 
 open Consts in
 /-- `cursor_movement_commands` -/
@@ -92,7 +87,7 @@ def convertControlSequence (c : CtrlSeq) : Token :=
   | some k =>
     -- `seq.arguments.empty() ? "1" : seq.arguments[0]`
     let repArg : List Byte := match c.args with | [] => [0x31] | a :: _ => a
-    .key { key := k, mods := seqMods c, rep := max (atoiGlibc repArg) 1, seq := .ctrl c }
+    .key { key := k, mods := seqMods c, rep := max (argToInt repArg) 1, seq := .ctrl c }
   | none => .ctrl c
 
 /-- `convert_ss3_sequence` -/
@@ -110,7 +105,7 @@ def convertKeypadSequence (c : CtrlSeq) : Token :=
   | [] => .ctrl c
   | d :: _ =>
     if !isDigit d then .ctrl c else
-    match lookupInt (atoiGlibc a0) keypadTable with
+    match lookupInt (argToInt a0) keypadTable with
     | some k => .key { key := k, mods := seqMods c, rep := 1, seq := .ctrl c }
     | none => .ctrl c
 
